@@ -24,7 +24,7 @@ def main (args : List String) : IO UInt32 := do
       | "C07" => some (DriverDemux.runC07 t)
       | "C08" => some (DriverDemux.runC08 t)
       | "C16" => some (DriverDemux.runC16 t)
-      | "C18r" => some (DriverDemux.runC18r t)
+      | "C18" => some (do DriverDemux.runC18r t; DriverMux.runC18w t)
       | "C19" => some (DriverDemux.runC19 t)
       | "C20" => some (DriverDemux.runC20 t)
       | "C01" => some (DriverMux.runC01 t)
